@@ -9,21 +9,28 @@ R1 mirrored updates (P12).  In every method of DirectedGraph and its subclasses 
    `del A[n]` <-> `del B[n]` and is preceded by the loop that erases n from the other view's entries
    (`for x in A[n]: B[x].discard(n)`); `A[n] = set()` <-> `B[n] = set()` and only for an absent node;
    `__init__` creates both maps; a node reported as removed is a node that was deleted.
-   A mutation the extractor cannot interpret (`update`, `|=`, rebinding a map ...) is an analysis error.
+   A snapshot `A[k] = set(A[j])` / `A[j].copy()` counts as the creation of A[k] plus the bulk insertion of A[j]'s
+   edges: it needs the creation of B[k], the mirroring loop `for x in A[j]: B[x].add(k)`, and no operation that
+   may change A[j] (any A[..] update whose key is not k -- it may be j, e.g. a self-loop) between the snapshot and
+   the end of that loop.  A mutation without an elementwise reading (`update`, `|=`, aliasing `A[k] = A[j]`,
+   rebinding a map ...) has no mirror image that can be paired: it is reported as a violation of this clause.
 R2 encapsulation (P8).  `_successors/_predecessors` are touched only by methods of these classes (whole
    program, incl. string access), and no method returns an internal map / set / dict view: query methods
    return fresh copies; each directional query (successors/out_degree/get_sinks vs predecessors/in_degree/
    get_sources) reads its own view.
 R3 pruning guards.  A predecessor is queued for removal only when its successor set is known to be empty
    *after* the edge to the removed node was dropped (and, in `remove_nodes`, only under `prune_dead_end`);
-   `promote_to_source` hands exactly that queue to `remove_nodes` with pruning on and returns its result;
+   `promote_to_source` (and any sibling that queues dead-end predecessors) hands exactly that queue to
+   `remove_nodes` with pruning on and returns its result -- the flag is the value the *callee* sees: the argument
+   written at the call site or, when omitted, the callee's signature default (a caller relying on a default);
    wrappers (`remove_node`) forward `prune_dead_end`;
    `replace` does nothing for an absent `old_node` and refuses an existing `new_node` before any mutation.
 R4 GraphMapper keeps `port_tokens`, `token_instances`, `token_availability` in step: a token id added
    to / removed from one of them is added to / removed from all three together; `replace_token` replaces
    exactly (old id -> new id) in the DAG; `move_token_to_root` cleans the ids returned by
    `promote_to_source` and removes emptied ports; `remove_port` drops the port from the dependency graph
-   (without pruning other ports) and both port maps; code outside GraphMapper only reads these maps.
+   (without pruning other ports: explicit argument or signature default of the remover, also for sibling methods
+   that drop the returned list) and both port maps; code outside GraphMapper only reads these maps.
 R5 iteration safety.  No loop iterates an internal set (or map) that its body mutates without taking a copy.
 
 Not decided: equivalence with a reference graph for arbitrary operation sequences (needs execution).
@@ -37,7 +44,9 @@ from ..model import ancestors, enclosing_stmt, unparse, walk_no_nested
 from ..selftest import V
 from ._util_E import (
     coexec,
+    const_of,
     deref,
+    effective_arg,
     emptiness_atom,
     enclosing_loops,
     guard_atoms,
@@ -47,6 +56,7 @@ from ._util_E import (
     loops_of,
     membership_atom,
     must_follow,
+    signature_default,
     strip_copy,
 )
 
@@ -140,6 +150,17 @@ def _empty_dict(e) -> bool:
     )
 
 
+def _entry_copy(f, e):
+    """`set(A[j])` / `A[j].copy()` written directly as the assigned value -> (view, key expr) of the copied entry."""
+    inner = None
+    if isinstance(e, ast.Call) and not e.keywords:
+        if isinstance(e.func, ast.Name) and e.func.id == "set" and len(e.args) == 1 and not isinstance(e.args[0], ast.Starred):
+            inner = e.args[0]
+        elif isinstance(e.func, ast.Attribute) and e.func.attr == "copy" and not e.args:
+            inner = e.func.value
+    return view_entry(f, inner) if inner is not None else None
+
+
 def extract_ops(f, prog=None, _depth=0):
     """-> (ops, uninterpretable nodes) for the adjacency maps in function f.  With `prog`, the add/discard/del
     operations of helper methods of the graph classes called as `self.helper(args)` are inlined (one level),
@@ -175,8 +196,12 @@ def extract_ops(f, prog=None, _depth=0):
                     if isinstance(x, ast.Subscript):
                         vm = view_map(f, x.value)
                         if vm:
+                            src = _entry_copy(f, n.value) if n.value is not None else None
                             if n.value is not None and _empty_set(n.value):
                                 mk("new", vm, x.slice, None, n)
+                            elif src is not None and src[0] == vm and len(tgts) == 1 and x is t:
+                                # A[k] = set(A[j]): the entry is created as a snapshot of another entry of the same view
+                                mk("copy", vm, x.slice, src[1], n)
                             else:
                                 unknown.append(n)
                         elif view_entry(f, x.value):
@@ -223,7 +248,7 @@ def extract_ops(f, prog=None, _depth=0):
             if callee is None or callee is f or callee.cls is None or callee.cls.qualname not in gcs:
                 continue
             cops, _ = extract_ops(callee, prog, _depth + 1)
-            cops = [o for o in cops if o.kind in ("add", "rem", "del")]
+            cops = [o for o in cops if o.kind in ("add", "rem", "del", "new")]
             if not cops:
                 continue
             params = [p for p in callee.params if p != "self"]
@@ -270,14 +295,42 @@ def _mirrored(g, ops, o) -> bool:
     """The mirror image of op o exists among ops and is executed together with it."""
     other = OTHER[o.view]
     if o.kind == "add":
-        return any(p.kind == "add" and p.view == other and p.key == o.val and p.val == o.key and coexec(g, o.ids, p.ids) for p in ops)
+        if any(p.kind == "add" and p.view == other and p.key == o.val and p.val == o.key and coexec(g, o.ids, p.ids) for p in ops):
+            return True
+        # `for x in A[j]: B[x].add(k)` is the mirror image of the snapshot `A[k] = set(A[j])`
+        return any(p.kind == "copy" and _copy_mirror(g, p, o) for p in ops)
     if o.kind == "rem":
         return any(p.kind == "rem" and p.view == other and p.key == o.val and p.val == o.key and coexec(g, o.ids, p.ids) for p in ops) or any(
             p.kind == "del" and p.view == other and p.key == o.val and must_follow(g, o.ids, p.ids) for p in ops
         )
-    if o.kind in ("del", "new"):
-        return any(p.kind == o.kind and p.view == other and p.key == o.key and coexec(g, o.ids, p.ids) for p in ops)
+    if o.kind == "del":
+        return any(p.kind == "del" and p.view == other and p.key == o.key and coexec(g, o.ids, p.ids) for p in ops)
+    if o.kind in ("new", "copy"):
+        return any(p.kind in ("new", "copy") and p.view == other and p.key == o.key and coexec(g, o.ids, p.ids) for p in ops)
     return False
+
+
+def _copy_mirror(g, c, a) -> bool:
+    """add-op a is `B[x].add(k)` executed for every x of the loop `for x in A[j]` and copy-op c is `A[k] = set(A[j])`."""
+    return (
+        a.kind == "add" and a.view == OTHER[c.view] and a.val == c.key and a.loop is not None
+        and a.loop[0] == c.view and a.loop[1] == c.val and a.loop[2] == a.key and coexec(g, c.ids, a.lids)
+    )
+
+
+def _stale_between(g, ops, c, a):
+    """Operations that may change the copied entry A[j] after the snapshot c and before the mirroring loop of a has
+    finished (the loop then walks a different set than the one that was copied).  Keys are compared as text: only
+    the key of the new entry itself is known to differ from j, any other key (loop variable, parameter) may be j."""
+    after = g.reach(c.ids)
+    heads = set(a.lids)
+    out = []
+    for q in ops:
+        if q is c or q.view != c.view or q.kind == "init" or q.key == c.key:
+            continue
+        if any(i in after and (heads & g.reach([i], include_src=True)) for i in q.ids):
+            out.append(q)
+    return out
 
 
 def _mirrored_at_callers(prog, f, o) -> bool:
@@ -304,7 +357,13 @@ def r1(ctx):
     for f in graph_methods(prog):
         ops, unknown = extract_ops(f, prog)
         for u in unknown:
-            ctx.require(False, f"C20.R1: {f.qualname}: `{unparse(u)[:80]}` mutates an adjacency map in a way the pairing rule cannot interpret")
+            # a mutation without an elementwise reading has no mirror image the pairing can establish: the obligation
+            # is reported as not met (a changed shape is a finding, not an analysis failure)
+            ut = " ".join(unparse(u).split())
+            ctx.ob("R1", f"{f.name}: `{ut[:70]}` is an elementwise update with a mirror image in the other view", False, func=f, node=u,
+                   instance=f"{f.name}:opaque:{ut}",
+                   message=f"`{ut[:90]}` changes an adjacency map wholesale (bulk update / rebinding / aliasing): no mirrored update of the other view "
+                           "can be paired with it, so the successor and predecessor views are not kept in step")
         if not ops:
             continue
         g = f.cfg
@@ -339,10 +398,26 @@ def r1(ctx):
                 ctx.ob("R1", f"{f.name}: before {here} the node is erased from every {VIEW_ATTR[other]}[x], x in {VIEW_ATTR[o.view]}[{o.key}]", okb, func=f, node=o.node,
                        instance=inst + ":backrefs",
                        message=f"{here} drops the node's {'outgoing' if o.view == 'S' else 'incoming'} edges from this view, but no preceding loop `for x in self.{VIEW_ATTR[o.view]}[{o.key}]: self.{VIEW_ATTR[other]}[x].discard({o.key})` removes them from the other view")
-            elif o.kind == "new":
+            elif o.kind in ("new", "copy"):
                 ok = _mirrored(g, ops, o)
                 ctx.ob("R1", f"{f.name}: {here} creates the entry in both views", ok, func=f, node=o.node, instance=inst,
                        message=f"{here}: the entry is created in one view only (key sets of the two maps diverge)")
+                if o.kind == "copy":
+                    src = f"self.{VIEW_ATTR[o.view]}[{o.val}]"
+                    mirrors = [p for p in ops if _copy_mirror(g, o, p)]
+                    ctx.ob("R1", f"{f.name}: the edges copied by {here} are mirrored by a loop over {src} adding {o.key} to {VIEW_ATTR[other]}[x]", bool(mirrors),
+                           func=f, node=o.node, instance=inst + ":mirror",
+                           message=f"{here} copies all edges of `{o.val}` into one view, but no loop `for x in {src}: self.{VIEW_ATTR[other]}[x].add({o.key})` "
+                                   "records them in the other view on the same paths")
+                    if mirrors:
+                        stale = [q for p in mirrors for q in _stale_between(g, ops, o, p)]
+                        qs = sorted({" ".join(unparse(enclosing_stmt(q.node)).split())[:70] for q in stale})
+                        ctx.ob("R1", f"{f.name}: {src} is not changed between the snapshot {here} and the end of its mirroring loop", not stale,
+                               func=f, node=o.node, instance=inst + ":fresh",
+                               message=f"{here} takes a snapshot of {src}, but `{'`, `'.join(qs[:3])}` may change that set (its key may equal `{o.val}`, e.g. a "
+                                       f"self-loop) before the loop that mirrors the copied edges into {VIEW_ATTR[other]} has run: the snapshot and the "
+                                       "mirrored edges differ, the two views diverge",
+                               witness=[f"snapshot: {here}"] + [f"later update of {VIEW_ATTR[o.view]}[...]: `{t}`" for t in qs])
                 absent = False
                 for nid in o.ids:
                     for e, truth, _t in guard_atoms(g, nid):
@@ -523,6 +598,42 @@ def _mentions_entry(f, e, view, key) -> bool:
     return False
 
 
+REMOVERS = ("remove_nodes", "remove_node")
+FLAG = "prune_dead_end"
+
+
+def remover_callees(prog, f, c):
+    """Graph-class methods taking the pruning flag that the call c in f resolves to."""
+    gcs = set(graph_classes(prog))
+    out = []
+    for q in prog.resolve_call(f, c):
+        fn = prog.functions.get(q)
+        if fn is not None and fn.cls is not None and fn.cls.qualname in gcs and fn.name in REMOVERS and FLAG in fn.params:
+            out.append(fn)
+    return out
+
+
+def prune_flag(prog, f, c):
+    """The value `prune_dead_end` has in the removers called at c: the argument written at the call site or, when it
+    is omitted, the *signature default of the callee* (the caller then relies on that default).
+    -> (value, text): value True / False when it is that constant in every resolved callee, None otherwise;
+    text says where the value comes from."""
+    vals, texts = set(), []
+    for callee in remover_callees(prog, f, c):
+        e, how = effective_arg(callee, c, FLAG)
+        isc, v = const_of(f if how == "explicit" else None, e)
+        vals.add(v if isc and isinstance(v, bool) else None)
+        if how == "explicit":
+            texts.append(f"passes {FLAG}={unparse(e)}")
+        elif how == "default":
+            texts.append(f"omits {FLAG} and so relies on the signature default `{FLAG}={unparse(e)}` of {callee.qualname.rsplit('.', 2)[-2]}.{callee.name}")
+        else:
+            texts.append(f"leaves {FLAG} undetermined ({how}) for {callee.name}")
+    if len(vals) == 1 and None not in vals:
+        return vals.pop(), "; ".join(dict.fromkeys(texts))
+    return None, "; ".join(dict.fromkeys(texts)) or "calls no remover that takes the flag"
+
+
 def r3(ctx):
     prog = ctx.prog
     pushes = 0
@@ -577,6 +688,12 @@ def r3(ctx):
             ok = flag is not None and isinstance(deref(f, flag), ast.Name) and deref(f, flag).id == "prune_dead_end"
             ctx.ob("R3", f"{f.name} forwards prune_dead_end to remove_nodes", ok, func=f, node=c, instance=f"{f.name}:forward-flag",
                    message=f"{f.name} does not pass its prune_dead_end argument on: remove_node(n, prune_dead_end=False) would prune ancestors")
+            # a forwarding wrapper and the method it wraps should declare the same default (not armed: an API choice)
+            mine = signature_default(f, FLAG)[1]
+            for callee in remover_callees(prog, f, c):
+                theirs = signature_default(callee, FLAG)[1]
+                if mine is not None and theirs is not None and unparse(mine) != unparse(theirs):
+                    ctx.observe(f"C20.R3: {f.name}({FLAG}={unparse(mine)}) forwards to {callee.name}({FLAG}={unparse(theirs)}): the defaults of wrapper and wrapped method differ")
     ctx.require(fwd >= 1, "C20.R3: remove_node -> remove_nodes forwarding not found")
     ctx.require(pushes >= 2, f"C20.R3: only {pushes} predecessor-queueing sites found (remove_nodes, promote_to_source expected)")
 
@@ -588,10 +705,12 @@ def r3(ctx):
     push_lists = {c.func.value.id for c in f.calls() if isinstance(c.func, ast.Attribute) and c.func.attr == "append" and isinstance(c.func.value, ast.Name)}
     for c in calls:
         arg = c.args[0] if c.args else next((k.value for k in c.keywords if k.arg == "nodes"), None)
-        flag = c.args[1] if len(c.args) > 1 else next((k.value for k in c.keywords if k.arg == "prune_dead_end"), None)
-        ok = isinstance(arg, ast.Name) and arg.id in push_lists and (flag is None or (isinstance(flag, ast.Constant) and flag.value is True))
+        # the flag as the callee sees it: an omitted argument is resolved through the callee's signature default
+        pruning, how = prune_flag(prog, f, c)
+        ok = isinstance(arg, ast.Name) and arg.id in push_lists and pruning is True
         ctx.ob("R3", "promote_to_source removes the queued ancestors with pruning enabled", ok, func=f, node=c, instance="promote:remove_nodes",
-               message="promote_to_source does not hand its dead-end list to remove_nodes with prune_dead_end=True: ancestors that no longer lead anywhere survive")
+               message=f"promote_to_source does not hand its dead-end list to remove_nodes with prune_dead_end=True (`{unparse(c)}` {how}): "
+                       "only the direct parents are deleted, ancestors that no longer lead anywhere survive and are missing from the returned list")
         st = enclosing_stmt(c)
         returned = isinstance(st, ast.Return) and (st.value is c or deref(f, st.value) is c)
         if not returned:
@@ -603,6 +722,22 @@ def r3(ctx):
                func=f, node=c, instance="promote:returns",
                message="the list of removed nodes is not returned: GraphMapper.move_token_to_root cleans its token maps from it")
     _membership_guard(ctx, f, "node", absent_is_bad=True, label="promote_to_source ignores a node that is not in the graph")
+    # siblings: any other graph method that collects dead-end predecessors and hands them to a remover
+    for m in graph_methods(prog):
+        if m is f or m.name in REMOVERS:
+            continue
+        ploops = [x for x in entry_loops(m) if not x[0].is_comp and x[1] == "P"]
+        queues = {
+            c.func.value.id for c in m.calls()
+            if isinstance(c.func, ast.Attribute) and c.func.attr in ("append", "add", "appendleft") and isinstance(c.func.value, ast.Name) and len(c.args) == 1
+            and isinstance(c.args[0], ast.Name) and any(x[4] == c.args[0].id and _inside(c, x[0]) for x in ploops)
+        }
+        for c in m.calls():
+            if queues and remover_callees(prog, m, c) and c.args and isinstance(c.args[0], ast.Name) and c.args[0].id in queues:
+                pruning, how = prune_flag(prog, m, c)
+                ctx.ob("R3", f"{m.name} removes its queued dead-end predecessors with pruning enabled", pruning is True, func=m, node=c,
+                       instance=f"{m.name}:dead-ends:remover",
+                       message=f"{m.name}: `{unparse(c)}` {how}: the ancestors of the queued dead ends that no longer lead anywhere survive")
 
     # replace: guards before any mutation
     f = prog.func(f"{GRAPH}.replace")
@@ -812,13 +947,30 @@ def r4(ctx):
             for t in n.targets:
                 if isinstance(t, ast.Subscript) and is_self_attr(deref(f, t.value), PORT_MAPS) and ktext(f, t.slice) == pn:
                     done.add(deref(f, t.value).attr)
-    noprune = False
+    noprune, hows = None, []
     for c in f.calls():
-        if any(q in (f"{GRAPH}.remove_node", f"{GRAPH}.remove_nodes") for q in prog.resolve_call(f, c)):
-            flag = c.args[1] if len(c.args) > 1 else next((k.value for k in c.keywords if k.arg == "prune_dead_end"), None)
-            noprune = flag is not None and isinstance(flag, ast.Constant) and flag.value is False
-    ctx.ob("R4", "remove_port removes only this port from dcg_ports (no dead-end pruning)", noprune, func=f, node=f.node, instance="remove_port:noprune",
-           message="remove_port lets the dependency graph prune ancestor ports that stay in port_tokens/port_name_ids: the graph and the port maps disagree")
+        if remover_callees(prog, f, c):
+            # explicit argument or, when omitted, the callee's signature default
+            pruning, how = prune_flag(prog, f, c)
+            noprune = (pruning is False) and noprune is not False
+            hows.append(f"`{unparse(c)}` {how}")
+    ctx.ob("R4", "remove_port removes only this port from dcg_ports (no dead-end pruning)", bool(noprune), func=f, node=f.node, instance="remove_port:noprune",
+           message="remove_port lets the dependency graph prune ancestor ports that stay in port_tokens/port_name_ids: the graph and the port maps disagree"
+                   + (f" ({'; '.join(hows)})" if hows else ""))
+    # sibling methods of GraphMapper that remove nodes from the port graph and drop the list of removed nodes
+    for m in cls.methods.values():
+        if m is f:
+            continue
+        for c in m.calls():
+            if not remover_callees(prog, m, c) or not isinstance(enclosing_stmt(c), ast.Expr):
+                continue
+            recv = c.func.value if isinstance(c.func, ast.Attribute) else None
+            if recv is None or not is_self_attr(deref(m, recv), ("dcg_ports",)):
+                continue
+            pruning, how = prune_flag(prog, m, c)
+            ctx.ob("R4", f"{m.name}: `{unparse(c)[:60]}` discards the list of removed ports, so it must not prune", pruning is False, func=m, node=c,
+                   instance=f"{m.name}:noprune:{ktext(m, c.args[0]) if c.args else ''}",
+                   message=f"{m.name}: `{unparse(c)}` {how} and ignores the returned list: ancestor ports pruned from dcg_ports stay in port_tokens/port_name_ids")
     want = {"dcg_ports", *PORT_MAPS}
     ctx.ob("R4", "remove_port drops the port from dcg_ports, port_name_ids and port_tokens", done == want, func=f, node=f.node, instance="remove_port:all",
            message=f"remove_port forgets {sorted(want - done)}")
@@ -885,9 +1037,9 @@ def r5(ctx):
                 continue
             if ent:
                 view, key = ent[0], ktext(f, ent[1])
-                bad = [o for o in ops if _inside(o.node, lp) and o.view == view and ((o.kind in ("add", "rem") and o.key == key) or (o.kind in ("del", "new") and o.key == key))]
+                bad = [o for o in ops if _inside(o.node, lp) and o.view == view and ((o.kind in ("add", "rem") and o.key == key) or (o.kind in ("del", "new", "copy") and o.key == key))]
             else:
-                bad = [o for o in ops if _inside(o.node, lp) and o.view == whole and o.kind in ("del", "new")]
+                bad = [o for o in ops if _inside(o.node, lp) and o.view == whole and o.kind in ("del", "new", "copy")]
             ctx.ob("R5", f"{f.name}: the body of `for ... in {unparse(lp.iter)}` does not change the collection it iterates", not bad, func=f, node=lp.node,
                    instance=f"{f.name}:iter:{unparse(it)}",
                    message=f"`{unparse(bad[0].node) if bad else ''}` changes `{unparse(it)}` while the loop iterates it without a copy (RuntimeError: Set changed size during iteration / skipped elements)")
@@ -911,8 +1063,28 @@ _RN_TAIL_HELPER = (
     "            del self._successors[current]\n            del self._predecessors[current]\n        return removed_nodes\n\n"
     "    def _detach_successors(self, n):\n        for s in self._successors[n]:\n            self._predecessors[s].discard(n)\n"
 )
+_RP_HEAD = (
+    "self._add_node(new_node)\n    for succ in self._successors[old_node]:\n        self._successors[new_node].add(succ)\n"
+    "        self._predecessors[succ].remove(old_node)\n        self._predecessors[succ].add(new_node)\n"
+    "    for pred in self._predecessors[old_node]:\n        self._predecessors[new_node].add(pred)\n"
+)
+_RP_L1 = "    for succ in self._successors[old_node]:\n        self._predecessors[succ].remove(old_node)\n        self._predecessors[succ].add(new_node)\n"
+_RP_L1_FULL = (
+    "    for succ in self._successors[old_node]:\n        self._successors[new_node].add(succ)\n"
+    "        self._predecessors[succ].remove(old_node)\n        self._predecessors[succ].add(new_node)\n"
+)
+_RP_L2_HEAD = "    for pred in self._predecessors[old_node]:\n"
 VARIANTS = [
     # ---- R1
+    V("replace: both adjacency sets copied up front (self-loop leaves a stale predecessor snapshot)", FILE, f"{G}.replace", _RP_HEAD,
+      "self._successors[new_node] = set(self._successors[old_node])\n    self._predecessors[new_node] = set(self._predecessors[old_node])\n" + _RP_L1 + _RP_L2_HEAD, "R1"),
+    V("replace: predecessor set copied before the successors are rewired", FILE, f"{G}.replace", _RP_HEAD,
+      "self._add_node(new_node)\n    self._predecessors[new_node] = self._predecessors[old_node].copy()\n" + _RP_L1_FULL + _RP_L2_HEAD, "R1"),
+    V("replace: successor set copied, predecessor entries never told", FILE, f"{G}.replace", _RP_HEAD,
+      "self._successors[new_node] = set(self._successors[old_node])\n    self._predecessors[new_node] = set()\n"
+      "    for succ in self._successors[old_node]:\n        self._predecessors[succ].remove(old_node)\n" + _RP_L2_HEAD + "        self._predecessors[new_node].add(pred)\n", "R1"),
+    V("replace: new entry aliases the old adjacency set", FILE, f"{G}.replace", "self._add_node(new_node)",
+      "self._add_node(new_node)\n    self._successors[new_node] = self._successors[old_node]", "R1"),
     V("add: predecessor side dropped", FILE, f"{G}.add", "self._successors[u].add(v)\n        self._predecessors[v].add(u)", "self._successors[u].add(v)", "R1", control=True),
     V("add: mirrored with swapped roles", FILE, f"{G}.add", "self._predecessors[v].add(u)", "self._predecessors[u].add(v)", "R1"),
     V("_add_node: only successors entry", FILE, f"{G}._add_node", "self._successors[node] = set()\n        self._predecessors[node] = set()", "self._successors[node] = set()", "R1"),
@@ -969,7 +1141,21 @@ VARIANTS = [
     V("remove_port: port_name_ids entry kept", FILE, f"{MAPPER}.remove_port", "self.port_name_ids.pop(port_name, None)\n    ", "", "R4"),
     # ---- R5
     V("promote: iterating the live predecessor set", FILE, f"{DAG}.promote_to_source", "for pred in list(self._predecessors[node]):", "for pred in self._predecessors[node]:", "R5"),
+    V("remove_nodes: default flipped to no pruning (promote_to_source relies on the default)", FILE, f"{G}.remove_nodes", "prune_dead_end: bool=True", "prune_dead_end: bool=False", "R3"),
+    V("remove_nodes: default dropped from the signature promote_to_source relies on", FILE, f"{G}.remove_nodes", "prune_dead_end: bool=True", "prune_dead_end: bool", "R3"),
+    V("promote: pruning switched off positionally through a temporary", FILE, f"{DAG}.promote_to_source", "return self.remove_nodes(to_delete)",
+      "keep_ancestors = False\n    return self.remove_nodes(to_delete, keep_ancestors)", "R3"),
     # ---- benign
+    V("benign: pruning flag made keyword-only (default still resolved from the signature)", FILE, f"{G}.remove_nodes", "nodes: MutableSequence[T], prune_dead_end: bool=True",
+      "nodes: MutableSequence[T], *, prune_dead_end: bool=True", None),
+    V("benign: promote passes the pruning flag explicitly", FILE, f"{DAG}.promote_to_source", "return self.remove_nodes(to_delete)", "return self.remove_nodes(to_delete, True)", None),
+    V("benign: promote passes the flag by keyword through a temporary", FILE, f"{DAG}.promote_to_source", "return self.remove_nodes(to_delete)",
+      "walk_up = True\n    return self.remove_nodes(to_delete, prune_dead_end=walk_up)", None),
+    V("benign: remove_port passes the flag positionally", FILE, f"{MAPPER}.remove_port", "remove_node(port_name, prune_dead_end=False)", "remove_node(port_name, False)", None),
+    V("benign: successor set of the new node initialised by a copy (nothing changes it before its mirroring loop)", FILE, f"{G}.replace", _RP_HEAD,
+      "self._successors[new_node] = set(self._successors[old_node])\n    self._predecessors[new_node] = set()\n" + _RP_L1 + _RP_L2_HEAD + "        self._predecessors[new_node].add(pred)\n", None),
+    V("benign: predecessor set copied after the successors were rewired", FILE, f"{G}.replace", _RP_HEAD,
+      "self._add_node(new_node)\n" + _RP_L1_FULL + "    self._predecessors[new_node] = self._predecessors[old_node].copy()\n" + _RP_L2_HEAD, None),
     V("benign: mirrored statements swapped", FILE, f"{G}.add", "self._successors[u].add(v)\n        self._predecessors[v].add(u)", "self._predecessors[v].add(u)\n        self._successors[u].add(v)", None),
     V("benign: remove <-> discard", FILE, f"{G}.replace", ".remove(old_node)", ".discard(old_node)", None, count=2),
     V("benign: rename loop variables", FILE, f"{G}.remove_nodes", "for succ in self._successors[current]:\n            self._predecessors[succ].discard(current)",
